@@ -66,6 +66,10 @@ PROFILES = {
     "select": {"p_on": 0.7, "p_guard": 0.6, "p_parallel": 0.45, "p_composite_guard": 0.3, "p_always": 0.05,
                "p_wildcard": 0.15, "p_forbidden": 0.1},
     "loops": {"p_always": 0.45, "p_raise": 0.4, "p_ondone": 0.6, "p_final": 0.3, "max_iterations": 6, "p_guard": 0.45},
+    # self-raise chains whose members can FAIL (missing / raising actions) and short bounds: what is left of the
+    # chain bookkeeping after a failed macrostep
+    "loopfaults": {"p_always": 0.2, "p_raise": 0.55, "p_raise_burst": 0.2, "p_ondone": 0.4, "p_final": 0.2, "max_iterations": 4,
+                   "p_guard": 0.3, "p_fail": 0.15, "p_missing": 0.15, "p_ctx": 0.2, "n_events": 10, "p_on": 0.5},
     "actions": {"p_ctx": 0.35, "p_fail": 0.12, "p_assign": 0.2, "p_choose": 0.2, "p_raise": 0.15, "p_guard": 0.4,
                 "p_always": 0.15, "p_parallel": 0.3},
     "faults": {"p_ctx": 0.2, "p_fail": 0.3, "p_missing": 0.08, "p_assign": 0.1, "p_choose": 0.15, "p_async_action": 0.05,
